@@ -884,3 +884,33 @@ Lemma wit_suppressed :
   no_suppressed wit_cfgs_prefer wit_relay None (answered (Deadline 100 16) wit_relay) = false
   /\ no_suppressed wit_cfgs_exclude wit_relay None (answered (Deadline 100 16) wit_relay) = false.
 Proof. split; vm_compute; reflexivity. Qed.
+
+(* ------------------------------------------------------------------------------------------ *)
+(* The result depends on the relays only through their acceptable offers; return time. *)
+
+Lemma best_score_depends_on_acceptable cfgs T rs rs' ord ord' :
+  arrival_order (Best T) rs ord -> arrival_order (Best T) rs' ord' ->
+  (forall i b, acceptable (Best T) rs i b <-> acceptable (Best T) rs' i b) ->
+  option_map p_score (st_win (result_of cfgs (Best T) ord)) = option_map p_score (st_win (result_of cfgs (Best T) ord')).
+Proof.
+  intros H1 H2 Heq.
+  apply (winner_is_max_score_unique cfgs (acceptable (Best T) rs)).
+  - apply best_winner_is_max. exact H1.
+  - apply (winner_is_max_ext cfgs (acceptable (Best T) rs')); [intros i b; symmetry; apply Heq|].
+    apply best_winner_is_max. exact H2.
+Qed.
+
+Lemma fold_max_bounds : forall l a T, (a <= T)%Z -> (forall x, In x l -> (x <= T)%Z) -> (a <= fold_left Z.max l a <= T)%Z.
+Proof.
+  induction l as [|x l IH]; intros a T Ha Hall; cbn [fold_left]; [lia|].
+  assert (Hx : (x <= T)%Z) by (apply Hall; left; reflexivity).
+  destruct (IH (Z.max a x) T ltac:(lia) (fun y Hy => Hall y (or_intror Hy))) as [H1 H2]. lia.
+Qed.
+
+Lemma elapsed_bounds s rs : (0 <= cutoff s)%Z -> (0 <= elapsed s rs <= cutoff s)%Z.
+Proof.
+  destruct s as [T | D gap]; cbn [elapsed cutoff]; intros H0; [|lia].
+  destruct (Nat.eqb _ _); [|lia].
+  apply fold_max_bounds; [exact H0|].
+  intros x Hx. apply in_map_iff in Hx as [e [<- He]]. apply filter_In in He as [_ Ht]. apply Z.ltb_lt in Ht. lia.
+Qed.
